@@ -8,6 +8,7 @@ INVARIANT TypeOK
 INVARIANT InOrderOnce
 INVARIANT PagesWithinLimit
 INVARIANT Complete
+INVARIANT PageCount
 INVARIANT ScrollCleared
 INVARIANT NoUseAfterClear
 INVARIANT LatestPitId
